@@ -26,6 +26,19 @@ pub fn lits(l: L) -> &'static [&'static str] {
     }
 }
 
+/// The interpreter's own linking ("insignificant") words.
+pub fn linking_words(l: L) -> &'static [&'static str] {
+    match l {
+        L::En => vocab_lits::LINK_EN,
+        L::Fr => vocab_lits::LINK_FR,
+        L::Es => vocab_lits::LINK_ES,
+        L::Pt => vocab_lits::LINK_PT,
+        L::It => vocab_lits::LINK_IT,
+        L::De => vocab_lits::LINK_DE,
+        L::Nl => vocab_lits::LINK_NL,
+    }
+}
+
 /// Every number-related surface word of the language (speller output for small numbers, scale
 /// words, ordinals with inflections, variants, the interpreter's own literals), simplest first.
 pub fn number_words(l: L) -> Vec<String> {
@@ -64,6 +77,12 @@ pub fn sigma_full(l: L) -> Vec<String> {
         out.push(w.to_string());
     }
     for w in l.linking() {
+        if !out.iter().any(|x| x == w) {
+            out.push(w.to_string());
+        }
+    }
+    // every linking word of the interpreter (two-word entries too: a caller's token may hold them)
+    for w in linking_words(l) {
         if !out.iter().any(|x| x == w) {
             out.push(w.to_string());
         }
